@@ -325,6 +325,8 @@ class ThresholdCheck(Check):
 @register
 class CHECK(ThresholdCheck):
     pid = "C04"
+    module = "FairModel.Properties.C04X"  # base file + composition theorems (same namespace)
+    cross = (("threshold", {"X1.threshold-gamma-zero"}),)
     small = False
     technique = ("Lean 4 theorems over the Threshold model (sweep, monotone-chain hull, interpolation index, fit, fit -> "
                  "predict), the model being DEFINED over four files lifted from the source on every run: METRIC_DICT / "
